@@ -869,7 +869,9 @@ where
             [Some(ExprOrSpread { spread: None, expr })] => match strip_parens(expr) {
                 expr @ Expr::Ident(..) if is_component => {
                     let elems = self.build_iife(elems.clone());
-                    if self.options.enable_object_slots {
+                    // with `v-slots` the child is always the default slot beside those entries:
+                    // passed through, it would leave the `v-slots` value unevaluated and unused
+                    if self.options.enable_object_slots && slots.is_none() {
                         Expr::Cond(CondExpr {
                             span: DUMMY_SP,
                             test: Box::new(Expr::Call(CallExpr {
@@ -892,7 +894,7 @@ where
                 }
                 expr @ Expr::Call(..) if expr.span() != DUMMY_SP && is_component => {
                     // the element was generated and doesn't have location information
-                    if self.options.enable_object_slots {
+                    if self.options.enable_object_slots && slots.is_none() {
                         let slot_ident = self.generate_unique_slot_ident();
                         Expr::Cond(CondExpr {
                             span: DUMMY_SP,
